@@ -24,6 +24,9 @@ mod client;
 mod server;
 pub(crate) mod utils;
 
+#[cfg(eigerco_lumina_verif)]
+pub(crate) use crate::p2p::header_ex::client::sim_verif_hooks as client_sim_verif_hooks;
+
 use crate::p2p::P2pError;
 use crate::p2p::header_ex::client::HeaderExClientHandler;
 use crate::p2p::header_ex::server::HeaderExServerHandler;
